@@ -1139,6 +1139,9 @@ def judge(ctx, case, tmpdir, lines, pending):
         obs = {"client_refused": innermost(e), "cli": {}, "srv": [], "state": {}}
     except Exception as e:  # noqa: anything else escaping the client API is outside the model's error enum
         obs = {"client_refused": "E_OTHER(" + type(e).__name__ + ")", "cli": {}, "srv": [], "state": {}}
+    obs.setdefault("state", {}); obs.setdefault("cli", {}); obs.setdefault("srv", [])
+    if obs.get("quiescent"):
+        ctx.hit("exchange-quiescent")
     direct_oracle(ctx, case, obs)
     ctx.hit("req:" + case["req"]["body"]["kind"], "resp:" + case["resp"]["kind"], "ver:%d.%d" % tuple(case["ver"]),
             "status:%d" % case["resp"]["status"], "method:" + case["req"]["method"], "seg:" + case["seg"][0][0] + "/" + case["seg"][1][0])
@@ -1146,6 +1149,8 @@ def judge(ctx, case, tmpdir, lines, pending):
         ctx.hit("client-exc:" + obs["cli"]["exc"])
     for e in obs.get("srv_errs", []):
         ctx.hit("server-log:" + e)
+    if obs.get("quiescent"):
+        return obs   # the exchange never finished (judged by the oracle): no complete observation to compare
     # ---- request direction vs model
     rl = req_line(case, obs)
     ir = impl_req_canon(case, obs)
@@ -1267,7 +1272,9 @@ def compare_resp(ctx, case, obs, mo, impl):
     # client's view: real parser's message.should_close -> pool decision
     rel = obs.get("release_log") or []
     cli = obs.get("cli", {})
-    if rel and "exc" not in cli:
+    # (a request whose user-supplied framing headers lie about its body leaves bytes behind: not modelled here)
+    user_req_framing = any(k.lower() in ("content-length", "transfer-encoding") for k, _ in case["req"].get("hdrs", []))
+    if rel and "exc" not in cli and not user_req_framing:
         client_closes = rel[0]["force"] or rel[0]["arg"] or rel[0]["proto"]
         model_closes = m["cclose"] == "1" or bool(case.get("fc"))
         # bytes left over on the connection also force a close (ResponseHandler.should_close)
